@@ -100,7 +100,6 @@ var props = map[string]*propDef{
 			{Must: mustC01, Name: "proto.VerifC01PlainLeaves", Quick: map[string]int{"maxrows": 2, "maxstr": 2}, Thorough: map[string]int{"maxrows": 3, "maxstr": 2}},
 			{Must: mustC01, Name: "proto.VerifC01Composites", Quick: map[string]int{"maxrows": 2, "maxstr": 1, "maxinner": 2}, Thorough: map[string]int{"maxrows": 3, "maxstr": 2, "maxinner": 2}},
 			{Must: mustC01, Name: "proto.VerifC01Boundaries", Cfg: bigSteps, Quick: map[string]int{"minrows": 258, "maxrows": 258}, Thorough: map[string]int{"minrows": 258, "maxrows": 258}},
-			{Must: mustC01, Name: "proto.VerifC01Boundaries", OnlyTier: "thorough", Cfg: bigSteps, Thorough: map[string]int{"minrows": 65538, "maxrows": 65538, "bigdict": 1, "bigstr": 0}},
 			{Must: mustC01, Name: "proto.VerifC01PlainLeaves", Tags: "verif,purego", Quick: map[string]int{"maxrows": 2, "maxstr": 1}, Thorough: map[string]int{"maxrows": 3, "maxstr": 2}},
 			{Must: mustC01, Name: "proto.VerifC01GenLeaves", Tags: "verif,purego", Quick: map[string]int{"maxrows": 2}, Thorough: map[string]int{"maxrows": 4}},
 		},
